@@ -111,6 +111,26 @@ def spell_directory(base: str, rel: str, style: int, link_dir: str) -> typing.An
     return os.path.join(link, name)
 
 
+def as_container(items: typing.Any, kind: int) -> typing.Any:
+    """The same sequence of paths / names in another iterable form (the API takes any Iterable; a str / Path stays what it is).
+    One-shot forms (generator, iterator, map) can be consumed only once."""
+    if isinstance(items, (str, pathlib.PurePath)) or items is None:
+        return items
+    xs = list(items)
+    k = kind % 6
+    if k == 1:
+        return tuple(xs)
+    if k == 2:
+        return (x for x in xs)
+    if k == 3:
+        return iter(xs)
+    if k == 4:
+        return map(lambda x: x, xs)
+    if k == 5:
+        return dict.fromkeys(xs).keys()  # ordered, duplicates dropped: a re-iterable view
+    return xs
+
+
 def hash_str(s: str) -> int:
     h = 0
     for ch in s:
